@@ -1,6 +1,6 @@
 //! Codestream assembly: image header, frames (header + TOC + sections).
 
-use crate::bits::BitWriter;
+use crate::bits::{pack_signed, BitWriter};
 use crate::entropy::{gen_permutation, permutation_ops, CodeOpts, EntropyCode};
 use crate::headers::*;
 use crate::src::Src;
@@ -79,4 +79,185 @@ pub fn write_codestream_start(ih: &ImageHeaderSpec, icc_stream: Option<&BitWrite
 /// LfChannelDequantization.all_default = 1.
 pub fn write_lf_global_preamble_plain(w: &mut BitWriter) {
     w.bit(true);
+}
+
+// ---------------------------------------------------------------------------
+// LfGlobal: noise parameters and the spline dictionary (the patch dictionary
+// writer lives in `gen::frames::write_patches`).  Order inside LfGlobal:
+// Patches, Splines, NoiseParameters, LfChannelDequantization, ...
+
+/// The eight points of the noise strength look-up table, each u(10) (value / 1024).
+#[derive(Clone, Debug, PartialEq)]
+pub struct NoiseSpec {
+    pub lut: [u16; 8],
+}
+
+pub fn write_noise(w: &mut BitWriter, n: &NoiseSpec) {
+    for &v in &n.lut {
+        assert!(v < 1024);
+        w.bits(v as u64, 10);
+    }
+}
+
+/// One quantised spline: control points in frame coordinates (the first one is
+/// the starting point) and the 32 quantised DCT coefficients of X, Y, B and sigma
+/// along the arc.
+#[derive(Clone, Debug, PartialEq)]
+pub struct SplineSpec {
+    pub points: Vec<(i64, i64)>,
+    pub xyb_dct: [[i32; 32]; 3],
+    pub sigma_dct: [i32; 32],
+}
+
+#[derive(Clone, Debug, PartialEq)]
+pub struct SplinesSpec {
+    pub quant_adjust: i32,
+    pub splines: Vec<SplineSpec>,
+}
+
+pub const SPLINE_POS_LIMIT: i64 = 1 << 23;
+
+/// (context, value) tokens of the spline dictionary.  Contexts: 0 quantisation
+/// adjustment, 1 starting positions, 2 number of splines, 3 number of control
+/// points, 4 control point (double) deltas, 5 DCT coefficients.
+pub fn splines_tokens(s: &SplinesSpec) -> Vec<(u32, u32)> {
+    assert!(!s.splines.is_empty());
+    let mut t = vec![(2u32, s.splines.len() as u32 - 1)];
+    let mut prev: Option<(i64, i64)> = None;
+    for sp in &s.splines {
+        let (x, y) = *sp.points.first().expect("a spline has a starting point");
+        assert!(x.abs() < SPLINE_POS_LIMIT && y.abs() < SPLINE_POS_LIMIT);
+        match prev {
+            None => {
+                // the first starting point is coded unsigned
+                assert!(x >= 0 && y >= 0, "the first starting point cannot be negative");
+                t.push((1, x as u32));
+                t.push((1, y as u32));
+            }
+            Some((px, py)) => {
+                t.push((1, pack_signed((x - px) as i32)));
+                t.push((1, pack_signed((y - py) as i32)));
+            }
+        }
+        prev = Some((x, y));
+    }
+    t.push((0, pack_signed(s.quant_adjust)));
+    for sp in &s.splines {
+        t.push((3, sp.points.len() as u32 - 1));
+        // second-order differences, starting from delta (0, 0)
+        let (mut px, mut py) = sp.points[0];
+        let (mut pdx, mut pdy) = (0i64, 0i64);
+        for &(x, y) in &sp.points[1..] {
+            assert!(x.abs() < SPLINE_POS_LIMIT && y.abs() < SPLINE_POS_LIMIT);
+            assert!((x, y) != (px, py), "consecutive control points must differ");
+            let (dx, dy) = (x - px, y - py);
+            t.push((4, pack_signed((dx - pdx) as i32)));
+            t.push((4, pack_signed((dy - pdy) as i32)));
+            (px, py, pdx, pdy) = (x, y, dx, dy);
+        }
+        for c in &sp.xyb_dct {
+            for &v in c {
+                t.push((5, pack_signed(v)));
+            }
+        }
+        for &v in &sp.sigma_dct {
+            t.push((5, pack_signed(v)));
+        }
+    }
+    t
+}
+
+/// Writes the spline dictionary: one entropy-coded stream with 6 contexts
+/// (code description generated from `src`; LZ77 with the given min_length if any).
+/// Returns the notes of the generated code.
+pub fn write_splines(w: &mut BitWriter, s: &SplinesSpec, lz77: Option<u32>, src: &mut Src) -> Vec<String> {
+    let tokens = splines_tokens(s);
+    let (ops, copies) = crate::modular::encode::make_ops(&tokens, lz77, 0, src, false);
+    let code = EntropyCode::generate(src, 6, &[&ops], &CodeOpts { lz77_min_length: lz77, ..Default::default() });
+    code.write_header(w, src);
+    code.write_stream(w, &ops, true);
+    let mut notes = vec![format!("code:{}", if code.use_prefix { "prefix" } else { "ans" })];
+    if lz77.is_some() {
+        notes.push("lz77".into());
+    }
+    if copies > 0 {
+        notes.push("lz77-copies".into());
+    }
+    notes
+}
+
+#[cfg(test)]
+mod tests {
+    use super::*;
+
+    /// Reads the token list back the way the format defines the spline dictionary.
+    fn parse(tokens: &[(u32, u32)]) -> SplinesSpec {
+        let unpack = |v: u32| -> i64 { if v & 1 == 0 { (v >> 1) as i64 } else { -(((v >> 1) as i64) + 1) } };
+        let mut it = tokens.iter().copied();
+        let mut next = |ctx: u32| {
+            let (c, v) = it.next().expect("token");
+            assert_eq!(c, ctx, "context");
+            v
+        };
+        let n = next(2) as usize + 1;
+        let mut starts = vec![];
+        for i in 0..n {
+            let (x, y) = (next(1), next(1));
+            if i == 0 {
+                starts.push((x as i64, y as i64));
+            } else {
+                let (px, py) = starts[i - 1];
+                starts.push((px + unpack(x), py + unpack(y)));
+            }
+        }
+        let quant_adjust = unpack(next(0)) as i32;
+        let mut splines = vec![];
+        for &start in &starts {
+            let k = next(3) as usize;
+            let mut points = vec![start];
+            let (mut cur, mut delta) = (start, (0i64, 0i64));
+            for _ in 0..k {
+                delta.0 += unpack(next(4));
+                delta.1 += unpack(next(4));
+                cur = (cur.0 + delta.0, cur.1 + delta.1);
+                points.push(cur);
+            }
+            let mut xyb_dct = [[0i32; 32]; 3];
+            for c in &mut xyb_dct {
+                for v in c.iter_mut() {
+                    *v = unpack(next(5)) as i32;
+                }
+            }
+            let mut sigma_dct = [0i32; 32];
+            for v in &mut sigma_dct {
+                *v = unpack(next(5)) as i32;
+            }
+            splines.push(SplineSpec { points, xyb_dct, sigma_dct });
+        }
+        assert!(it.next().is_none(), "trailing tokens");
+        SplinesSpec { quant_adjust, splines }
+    }
+
+    #[test]
+    fn spline_tokens_round_trip() {
+        let mut a = SplineSpec { points: vec![(3, 0), (9, 4), (-2, 7), (-1, 7), (40, -5)], xyb_dct: [[0; 32]; 3], sigma_dct: [0; 32] };
+        a.xyb_dct[0][0] = -17;
+        a.xyb_dct[1][31] = 4;
+        a.xyb_dct[2][5] = -1;
+        a.sigma_dct[0] = 9;
+        a.sigma_dct[3] = -2;
+        let b = SplineSpec { points: vec![(-4, 11)], xyb_dct: [[1; 32]; 3], sigma_dct: [2; 32] };
+        let c = SplineSpec { points: vec![(100, 2), (101, 2)], ..a.clone() };
+        for quant_adjust in [0, -9, 24] {
+            let s = SplinesSpec { quant_adjust, splines: vec![a.clone(), b.clone(), c.clone()] };
+            assert_eq!(parse(&splines_tokens(&s)), s);
+        }
+    }
+
+    #[test]
+    fn noise_is_eight_ten_bit_fields() {
+        let mut w = BitWriter::new();
+        write_noise(&mut w, &NoiseSpec { lut: [0, 1, 2, 3, 1023, 512, 7, 8] });
+        assert_eq!(w.num_bits(), 80);
+    }
 }
